@@ -114,7 +114,7 @@ def deadlock_query(cat, n_threads, width=64):
     return str(r), dt, model, s.to_smt2()
 
 
-def cross_check(smt2, tag):
+def cross_check(smt2, tag, timeout=300):
     """the same query through z3 4.8.12 and cvc5 (verdicts must agree)"""
     out = {}
     path = os.path.join(common.SCRATCH_ROOT, "c01_%s_%d.smt2" % (tag, os.getpid()))
@@ -122,12 +122,14 @@ def cross_check(smt2, tag):
         fh.write("(set-logic ALL)\n" + smt2)
     for name, cmd in (("z3-4.8.12", ["/usr/bin/z3", path]), ("cvc5", ["cvc5", "--lang", "smt2", path])):
         try:
-            r = subprocess.run(cmd, stdout=subprocess.PIPE, stderr=subprocess.STDOUT, text=True, timeout=300)
+            r = subprocess.run(cmd, stdout=subprocess.PIPE, stderr=subprocess.STDOUT, text=True, timeout=timeout)
             txt = r.stdout.strip().splitlines()
             verdict = txt[0] if txt else "?"
             if any("(error" in l for l in txt):
                 verdict = "inconclusive: " + " ".join(txt)[:120]
             out[name] = verdict
+        except subprocess.TimeoutExpired:
+            out[name] = "timeout after %ds" % timeout
         except Exception as e:
             out[name] = "failed: %s" % e
     try:
